@@ -360,6 +360,8 @@ def check_disagg(ctx, req, extra, out, tol):
     case = {k: req[k] for k in ("op", "cells", "res", "weights", "fields")}
     model, spec = out["model"], out["spec"]
     if applicable:
+        # hypotheses of disagg_spec_bridge (Spec.C18.disaggWF) evaluated by the driver on the input
+        ctx.count("disagg/wf(hypotheses of the bridge theorem)=" + str(out["wf"]))
         if not spec["sum"]:
             ctx.fail("disaggregate_experience: sub-period values do not add up to the original cell "
                      "(or sub-periods do not tile the observable part of the period)", case, {"impl": d, "tol": str(tol)})
